@@ -445,6 +445,24 @@ func runReadMonitor(c *Ctx, sub string, binary bool) {
 			}
 		})
 		c.Exhaustive(fmt.Sprintf("token-length sweep: %d literal kinds at every length 1..140 and 255..257, 1023..1025, 4095..4097 bytes, at top level, in a list, in a struct and in an s-expression", 23))
+		// line-ending sweep: raw CR, LF and CR LF runs inside long strings and clobs (where they are
+		// data, normalised to LF), an escaped line end, comments ended by each; shifted byte by byte
+		// across the 4096- and 8192-byte marks so that every CR is once the last byte of a buffer
+		body := "'''a\r\n\r\nb\r\r\nc\n\r\n\rd''' {{'''e\r\n\r\nf\r'''}} '''g\\\r\n\r\nh''' // c\r\n 1 /* \r\n\r */ '''i\r''' '''\nj'''\r\n[\r\n'''k\r\n''',\r2]"
+		var pads []int
+		for _, mark := range []int{4096, 8192} {
+			for p := mark - len(body) - 2; p <= mark+1; p++ {
+				pads = append(pads, p)
+			}
+		}
+		c.Parallel(len(pads), func(w, i int) {
+			k := ReadCase{CaseSeed: int64(i), Literal: strings.Repeat(" ", pads[i]) + body + " "}
+			c.JournalCase(w, fmt.Sprintf("%s-line-endings pad=%d", sub, pads[i]))
+			if ran, _ := runReadCase(c, sub+"-line-endings", k); ran {
+				c.NonTrivial(fmt.Sprintf("crlf|%d", pads[i]))
+				c.Obs("line_ending_positions", 1)
+			}
+		})
 	}
 	// per-kind pass: every kind x typed null x annotated, with heavy spelling variation
 	g := gen.New(c.Seed + 99)
